@@ -1,4 +1,4 @@
-"""C19 (open): a parametric map whose mapping is a one-entry look-up table cannot be read with the real-world value
+"""C19: a parametric map whose mapping is a one-entry look-up table cannot be read with the real-world value
 transform (image.py wraps the bare number pydicom returns into a 0-d array).  exit 1 = defect present"""
 import sys; sys.path.insert(0, '/verif/fixes')
 from _c19_common import *
